@@ -67,6 +67,7 @@ type SenderInterceptor struct {
 	loggerFactory logging.LoggerFactory
 	lock          sync.Mutex
 	wg            sync.WaitGroup
+	recorderLock  sync.Mutex
 	recorder      *Recorder
 	interval      time.Duration
 	maxReportSize int64
@@ -135,6 +136,23 @@ func (s *SenderInterceptor) BindRemoteStream(
 	})
 }
 
+// UnbindRemoteStream is called when the Stream is removed. The stream's
+// reception log is dropped, so that no further report blocks are sent for it
+// and a stream bound with the same SSRC later starts from fresh state.
+func (s *SenderInterceptor) UnbindRemoteStream(info *interceptor.StreamInfo) {
+	s.recorderLock.Lock()
+	defer s.recorderLock.Unlock()
+
+	s.recorder.removeStream(info.SSRC)
+}
+
+func (s *SenderInterceptor) addPacket(pkt packet) {
+	s.recorderLock.Lock()
+	defer s.recorderLock.Unlock()
+
+	s.recorder.AddPacket(pkt.arrival, pkt.ssrc, pkt.sequenceNumber, pkt.ecn)
+}
+
 // Close closes the interceptor.
 func (s *SenderInterceptor) Close() error {
 	s.log.Trace("close")
@@ -164,7 +182,7 @@ func (s *SenderInterceptor) loop(writer interceptor.RTCPWriter) {
 		return
 	case pkt := <-s.packetChan:
 		s.log.Tracef("got first packet: %v", pkt)
-		s.recorder.AddPacket(pkt.arrival, pkt.ssrc, pkt.sequenceNumber, pkt.ecn)
+		s.addPacket(pkt)
 	}
 
 	s.log.Trace("start loop")
@@ -178,7 +196,7 @@ func (s *SenderInterceptor) loop(writer interceptor.RTCPWriter) {
 
 		case pkt := <-s.packetChan:
 			s.log.Tracef("got packet: %v", pkt)
-			s.recorder.AddPacket(pkt.arrival, pkt.ssrc, pkt.sequenceNumber, pkt.ecn)
+			s.addPacket(pkt)
 
 		case <-t.Ch():
 			now := s.now()
@@ -188,7 +206,9 @@ func (s *SenderInterceptor) loop(writer interceptor.RTCPWriter) {
 
 				continue
 			}
+			s.recorderLock.Lock()
 			pkts := s.recorder.BuildReport(now, int(s.maxReportSize))
+			s.recorderLock.Unlock()
 			if pkts == nil {
 				continue
 			}
